@@ -98,13 +98,13 @@ def frames (marker : List Nat) (parseMeta : List Nat → Option Nat) :
     let size := leVal pre
     if size = 0 then ([], .eos, rest) else
     if rest.length < size then ([], .truncated, []) else
-    let meta := rest.take size
-    match parseMeta meta with
+    let md := rest.take size
+    match parseMeta md with
     | none => ([], .badMeta, [])
     | some bl =>
       let rest2 := rest.drop size
       if rest2.length < bl then ([], .truncated, []) else
       let r := frames marker parseMeta fuel (rest2.drop bl)
-      ((meta, rest2.take bl) :: r.1, r.2)
+      ((md, rest2.take bl) :: r.1, r.2)
 
 end ArrowModel.C14
